@@ -15,6 +15,7 @@ import GoProbeModel.Spec.C09
 import GoProbeModel.Spec.C24
 import GoProbeModel.Spec.C31
 import GoProbeModel.Spec.C05
+import GoProbeModel.Spec.C30
 
 /-!
 `gpjudge`: executable specs. Reads lines `<Cxx> <case fields…> => <implementation output>` and
@@ -37,5 +38,6 @@ def main : IO Unit := DriverLoop.runJudge [
   ("C09", C09.judge),
   ("C24", C24.judge),
   ("C31", C31.judge),
-  ("C05", C05.judge)
+  ("C05", C05.judge),
+  ("C30", C30.judge)
 ]
